@@ -345,6 +345,11 @@ impl FwdSession {
     }
 
     /// One call on the shared engine and facts.
+    /// The caller opens an undo frame on the fact store and leaves it open (a what-if run).
+    pub fn open_undo_frame(&self) {
+        self.facts.begin_undo_frame();
+    }
+
     pub fn run(&mut self, entry: Entry) -> Run {
         let mut run = Run {
             parse_error: None,
